@@ -203,9 +203,17 @@ type driver interface {
 	start(cache string) started
 }
 
-type inproc struct{ r *mon.Run }
+type inproc struct {
+	r        *mon.Run
+	lifespan time.Duration // 0: the library's default, as the program itself asks for
+}
 
-func (inproc) name() string { return "sstls.Listen" }
+func (d inproc) name() string {
+	if d.lifespan != 0 {
+		return "sstls.Listen with lifespan " + d.lifespan.String()
+	}
+	return "sstls.Listen"
+}
 
 func (d inproc) start(cache string) started {
 	type res struct {
@@ -214,7 +222,7 @@ func (d inproc) start(cache string) started {
 	}
 	ch := make(chan res, 1)
 	go func() {
-		l, err := sstls.Listen("tcp", "127.0.0.1:0", "", 0, cache)
+		l, err := sstls.Listen("tcp", "127.0.0.1:0", "", d.lifespan, cache)
 		ch <- res{l, err}
 	}()
 	var rs res
@@ -416,7 +424,7 @@ func (c *cacheFile) keyPart() []byte  { return c.data[c.keyMarker:] }
 // newCache lets sstls create a cache file and records the pin its creating
 // run served.
 func newCache(r *mon.Run, path string) (*cacheFile, error) {
-	st := inproc{r}.start(path)
+	st := inproc{r: r}.start(path)
 	if st.stop != nil {
 		defer st.stop()
 	}
@@ -552,7 +560,7 @@ func truncEngine(r *mon.Run, f *cacheFile) {
 			what:    fmt.Sprintf("cache file cut short to its first %d of %d bytes", ln, n),
 			data:    damage(f.data, "trunc", ln),
 			allowed: map[string]bool{f.pin: true}, raws: map[string]bool{f.raw: true}}
-		out, detail := judgeFault(r, inproc{r}, filepath.Join(dir, fmt.Sprint(ln)), fc)
+		out, detail := judgeFault(r, inproc{r: r}, filepath.Join(dir, fmt.Sprint(ln)), fc)
 		r.Count("trunc_cases", 1)
 		r.Distinct("trunc:" + string(fc.data))
 		switch out {
@@ -583,7 +591,7 @@ func corruptEngine(r *mon.Run, f *cacheFile) {
 			what:    fmt.Sprintf("byte %d of %d (%s, %q) damaged by %s", pos, n, reg, f.data[pos], kind),
 			data:    data,
 			allowed: map[string]bool{f.pin: true}, raws: map[string]bool{f.raw: true}}
-		out, detail := judgeFault(r, inproc{r}, filepath.Join(dir, fmt.Sprint(i)), fc)
+		out, detail := judgeFault(r, inproc{r: r}, filepath.Join(dir, fmt.Sprint(i)), fc)
 		r.Count("corrupt_cases", 1)
 		r.Count("corrupt_cases_"+reg, 1)
 		if bytes.Equal(data, f.data) {
@@ -620,7 +628,7 @@ func bitflipEngine(r *mon.Run, f *cacheFile) {
 			what:    fmt.Sprintf("byte %d of %d (%s, %q) damaged by %s", pos, n, reg, f.data[pos], kind),
 			data:    data,
 			allowed: map[string]bool{f.pin: true}, raws: map[string]bool{f.raw: true}}
-		out, _ := judgeFault(r, inproc{r}, filepath.Join(dir, fmt.Sprint(i)), fc)
+		out, _ := judgeFault(r, inproc{r: r}, filepath.Join(dir, fmt.Sprint(i)), fc)
 		r.Count("bitflip_cases", 1)
 		r.Distinct("corrupt:" + string(data))
 		switch out {
@@ -757,7 +765,7 @@ func composeEngine(r *mon.Run, a, b *cacheFile) {
 			return
 		}
 		fc := cases[i]
-		out, detail := judgeFault(r, inproc{r}, filepath.Join(dir, fmt.Sprint(i)), fc)
+		out, detail := judgeFault(r, inproc{r: r}, filepath.Join(dir, fmt.Sprint(i)), fc)
 		r.Count("compose_cases", 1)
 		r.Distinct("compose:" + string(fc.data))
 		switch out {
@@ -849,7 +857,7 @@ func ChildPerm(args []string) int {
 			created := missingDirs(base, path)
 			ctx := fmt.Sprintf("umask %03o, %d nested directories of which %d existed", um, depth, pre)
 			r.Distinct("perm:" + ctx)
-			st := inproc{r}.start(path)
+			st := inproc{r: r}.start(path)
 			if st.infra != "" {
 				r.Inconclusive(ctx + ": " + st.infra)
 			} else if !st.ok {
@@ -861,7 +869,7 @@ func ChildPerm(args []string) int {
 				// the file just written must be usable: same key on the next start
 				backdate(path, idx)
 				before := snapshot(path)
-				st2 := inproc{r}.start(path)
+				st2 := inproc{r: r}.start(path)
 				r.Count("file_unchanged_checks", 1)
 				if df := before.diff(snapshot(path)); df != "" {
 					r.Violate("perm", idx, "restart-file-rewritten", fmt.Sprintf("%s: second start modified the cache (%s)", ctx, df), nil)
@@ -930,6 +938,17 @@ type pathModel struct {
 // cache-less starts and starts below new directories against the model.
 func runHistory(r *mon.Run, d driver, engine string, idx, nsteps int, root string) {
 	rng := r.Rng(engine, idx)
+	// who creates the cache files of this history: the driver itself, or a
+	// library caller that asks for another certificate lifespan (a cache
+	// whose certificate is already past its notAfter, or soon will be, is
+	// still "the file the creating run made")
+	var creator driver
+	switch idx % 3 {
+	case 1:
+		creator = inproc{r: r, lifespan: []time.Duration{time.Nanosecond, time.Microsecond, time.Millisecond}[(idx/3)%3]}
+	case 2:
+		creator = inproc{r: r, lifespan: []time.Duration{time.Second, time.Hour, 24 * time.Hour, 100 * 365 * 24 * time.Hour}[(idx/3)%4]}
+	}
 	os.MkdirAll(root, 0o755)
 	paths := []*pathModel{{path: filepath.Join(root, "cert.txtar")}}
 	var running []started
@@ -947,8 +966,12 @@ func runHistory(r *mon.Run, d driver, engine string, idx, nsteps int, root strin
 				}
 			}
 		}
-		r.Distinct(engine + ":" + strings.Join(sig, " "))
-		r.Sample(engine, map[string]any{"via": d.name(), "index": idx, "history": hist})
+		cn := ""
+		if creator != nil {
+			cn = " files created by " + creator.name()
+		}
+		r.Distinct(engine + ":" + strings.Join(sig, " ") + cn)
+		r.Sample(engine, map[string]any{"via": d.name(), "index": idx, "history": hist, "creator": cn})
 	}()
 
 	// all tracked files are exactly as the model says
@@ -972,7 +995,20 @@ func runHistory(r *mon.Run, d driver, engine string, idx, nsteps int, root strin
 		if df := pm.snap.diff(pre); df != "" { // harness sanity: nobody else touches the scratch tree
 			r.Inconclusive(fmt.Sprintf("%s[%d]: cache changed between steps (%s)", engine, idx, df))
 		}
-		st := d.start(pm.path)
+		var st started
+		if creator != nil && !pre.Exists {
+			st = creator.start(pm.path)
+			stepName += " by " + creator.name()
+			r.Count("caches_created_with_another_lifespan", 1)
+		} else {
+			st = d.start(pm.path)
+			if creator != nil {
+				r.Count("starts_on_caches_created_with_another_lifespan", 1)
+				if c := creator.(inproc); c.lifespan <= time.Millisecond {
+					r.Count("starts_on_caches_whose_certificate_has_expired", 1)
+				}
+			}
+		}
 		hs := histStep{Step: stepName, Path: rel(root, pm.path), Pin: st.pin}
 		if st.infra != "" {
 			hs.Note = "inconclusive: " + st.infra
@@ -1199,7 +1235,7 @@ func restartEngine(r *mon.Run) {
 			return
 		}
 		r.Eval(1)
-		runHistory(r, inproc{r}, "restart", i, 8, filepath.Join(r.Work, "restart", fmt.Sprint(i)))
+		runHistory(r, inproc{r: r}, "restart", i, 8, filepath.Join(r.Work, "restart", fmt.Sprint(i)))
 	})
 }
 
@@ -1298,7 +1334,7 @@ func binaryEngines(r *mon.Run, bin string, f *cacheFile) {
 // ---- Run ---------------------------------------------------------------------------------
 
 func Run(r *mon.Run) {
-	r.Rule = "fault enumeration over ONE freshly generated cache file F (created by sstls.Listen, ≈900 bytes): engine trunc = every prefix length 0…|F|−1; engine corrupt = every byte position × {flip low bit, replace by \\n, delete}, classified by region (comment, cert marker, cert PEM, key marker, key PEM) — `exhaustive` refers to these two enumerations of that one file only; the thorough tier adds engine bitflip = the other seven single-bit flips of every byte of F. Engine compose = a fixed list of multi-member damages built from two caches A and B (cert of A with key of B and vice versa, swapped/duplicated/extra/empty/missing members, PEM chains, CRLF) plus PRNG compositions. Engine perm = nesting depth 1–4 × number of pre-existing directories × umask {000,022}, in a child process per umask. Engines restart (in-process sstls.Listen) and binrestart (real -race binary on a pty) = PRNG histories over {start, stop, delete cache, start with cache path \"\", start below new directories} checked against the model identity[path] = pin served by the creating run; binfault = a PRNG sample of truncations/single-byte damages replayed through the binary. Oracle for every damaged file: start-up error, or a completed handshake presenting the original public key (identity = canonical PKIX encoding of the key the client parsed; a same key in different SubjectPublicKeyInfo bytes is counted as same_key_but_spki_bytes_differ, not judged); file bytes/inode/mtime/ctime/mode and directory listing unchanged (mtime is back-dated first so granularity cannot hide a rewrite). distinct_nontrivial = distinct damaged file contents per engine (hash; no-op damages excluded) + distinct history signatures (step kinds and paths) + distinct perm configurations"
+	r.Rule = "fault enumeration over ONE freshly generated cache file F (created by sstls.Listen, ≈900 bytes): engine trunc = every prefix length 0…|F|−1; engine corrupt = every byte position × {flip low bit, replace by \\n, delete}, classified by region (comment, cert marker, cert PEM, key marker, key PEM) — `exhaustive` refers to these two enumerations of that one file only; the thorough tier adds engine bitflip = the other seven single-bit flips of every byte of F. Engine compose = a fixed list of multi-member damages built from two caches A and B (cert of A with key of B and vice versa, swapped/duplicated/extra/empty/missing members, PEM chains, CRLF) plus PRNG compositions. Engine perm = nesting depth 1–4 × number of pre-existing directories × umask {000,022}, in a child process per umask. Engines restart (in-process sstls.Listen) and binrestart (real -race binary on a pty) = PRNG histories over {start, stop, delete cache, start with cache path \"\", start below new directories} checked against the model identity[path] = pin served by the creating run; in two histories of three the cache files are created by a library caller (sstls.Listen) asking for another certificate lifespan (1 ns, 1 µs, 1 ms: the certificate has expired by the next start; 1 s, 1 h, 1 d, 100 y), every later start going through the engine's own driver; binfault = a PRNG sample of truncations/single-byte damages replayed through the binary. Oracle for every damaged file: start-up error, or a completed handshake presenting the original public key (identity = canonical PKIX encoding of the key the client parsed; a same key in different SubjectPublicKeyInfo bytes is counted as same_key_but_spki_bytes_differ, not judged); file bytes/inode/mtime/ctime/mode and directory listing unchanged (mtime is back-dated first so granularity cannot hide a rewrite). distinct_nontrivial = distinct damaged file contents per engine (hash; no-op damages excluded) + distinct history signatures (step kinds and paths) + distinct perm configurations"
 	r.Assumptions = []string{
 		"torn writes are modelled as prefixes of the final content (what a crash during os.WriteFile of a new file leaves); reordered block writes are not modelled",
 		"the pin is computed by the harness from the leaf a crypto/tls client receives; a completed TLS 1.3 handshake proves possession of the matching private key",
@@ -1336,7 +1372,7 @@ func Run(r *mon.Run) {
 			r.Extra("cache_layout", map[string]int{"comment": fa.certMarker, "certmarker": fa.certBody - fa.certMarker, "certpem": fa.keyMarker - fa.certBody, "keymarker": fa.keyBody - fa.keyMarker, "keypem": fa.end - fa.keyBody})
 			// control: an undamaged copy at another path serves the original key
 			fc := faultCase{engine: "trunc", index: len(fa.data), keyBase: "control-full-copy", what: "undamaged copy of the cache at a new path", data: bytes.Clone(fa.data), allowed: map[string]bool{fa.pin: true}, raws: map[string]bool{fa.raw: true}}
-			if out, detail := judgeFault(r, inproc{r}, filepath.Join(r.Work, "control"), fc); out != "same-key" {
+			if out, detail := judgeFault(r, inproc{r: r}, filepath.Join(r.Work, "control"), fc); out != "same-key" {
 				if out == "error" {
 					r.Inconclusive("control failed: an undamaged copy of the cache does not load: " + detail)
 				}
@@ -1402,6 +1438,8 @@ func Run(r *mon.Run) {
 	r.Floor("restart_steps", 300)
 	r.Floor("restart_same_key", 60)
 	r.Floor("restart_regenerated", 40)
+	r.Floor("caches_created_with_another_lifespan", 20)
+	r.Floor("starts_on_caches_whose_certificate_has_expired", 15)
 	r.Floor("binary_starts", 16)
 	r.Floor("perm_checks", 16)
 	r.Floor("dirs_checked", 30)
